@@ -13,5 +13,6 @@ pub mod eng_join;
 pub mod eng_changeset;
 pub mod eng_panicdrop;
 pub mod eng_conc;
+pub mod eng_det;
 pub mod eng_saveload;
 pub mod eng_dispatch;
